@@ -258,4 +258,21 @@ PROPS["C12"] = dict(
     thorough=dict(checks=6000, shards=16, timeout=3000, shrinktime=30),
 )
 
+PROPS["C18"] = dict(
+    pkg="c18",
+    level="exploration",
+    technique="exhaustive enumeration of all 65536 boot numbers + property-based testing (rapid) of load options against an independent encoder; structural comparison of the text rendering",
+    level_text=("Every run enumerates all 65536 boot numbers (1024 stores of 64 entries, every Boot#### variable present, named as firmware names it) and requires GetBootOrder to return exactly those names and "
+                "GetBootEntry to resolve each; 1 store in 16 also goes through the legacy efi package. Generated cases: BootOrder of 0..64 entries (hex-letter numbers favoured), some variables absent, load options with arbitrary attributes, "
+                "Unicode descriptions, 1..6 nodes of PCI / ACPI / hard drive (MBR and GPT) / file path / firmware file / USB with arbitrary field values, optional data; decoded attributes, FilePathListLength, description and every node field "
+                "must equal the encoded ones; hard-drive nodes must render as HD(part,MBR|GPT,signature,0xstart,0xsize) with the GUID read in EFI layout / the 32-bit MBR signature, compared as values; file-path nodes as File(path)."),
+    level_note=("Trusts ref/devpath (validated per run: it reproduces byte for byte the device path nodes of load options captured from real firmware, and the known text form of Boot0001's partition GUID). "
+                "Partition number 0 (no defined short form) is excluded by construction and counted. Hard-drive nodes are generated with consistent partition format and signature type."),
+    rule=("evaluations = boot numbers enumerated + generated cases. Non-trivial = boot number containing a hex letter (a-f), or load option with >= 3 nodes; distinct by the boot number resp. SHA-256 of the case."),
+    assumptions=["testfs in-memory store as the variable backend"],
+    exhaustive_note="all 65536 boot numbers in every run of both tiers (class exhaustive_boot_numbers must total 65536)",
+    quick=dict(checks=4000, shards=2, timeout=600),
+    thorough=dict(checks=60000, shards=16, timeout=3000),
+)
+
 NOT_APPLICABLE = _NA()
